@@ -1057,12 +1057,16 @@ def impl_c07(case, scratch):
         ctx.add_page("Module:echo", 828, ECHO_MODULE, model="Scribunto")
         ctx.add_page("Module:hang", 828, "local e = {}\nfunction e.main(frame)\n" + case["body"] + "\nend\nreturn e", model="Scribunto")
         ctx.add_page("Template:a", 10, "A[{{{1|}}}]")
+        ctx.add_page("Module:syn", 828, "local e = {}\nfunction e.main(frame) return 'x' .. end\nreturn e", model="Scribunto")
+        ctx.add_page("Module:work", 828, "local e = {}\nfunction e.main(frame) local s = 0 for i = 1, 400000 do s = s + i % 7 end return 'work' .. s end\nreturn e", model="Scribunto")
         ctx.db_conn.commit()
         ctx.start_page("Tt")
         warm = ctx.expand("{{#invoke:echo|main|w}}")            # Lua start-up is not part of the measured time
         t0 = time.time()
-        out = ctx.expand("{{#invoke:hang|main}}", timeout=case["timeout"])
+        out = ctx.expand(case.get("first", "{{#invoke:hang|main}}"), timeout=case["timeout"])
         dt = time.time() - t0
+        if case.get("wait"):
+            time.sleep(case["wait"])
         follow = []
         for t in case.get("followups", []):
             ctx.start_page("Tt")
